@@ -3063,6 +3063,10 @@ EbErrorType svt_svt_enc_init_parameter(
         return EB_ErrorBadParameter;
     }
 
+    // Every field not given an explicit default below (is_16bit_pipeline, render size, two-pass
+    // stats, vbv_bufsize, manual prediction structure, ...) must not depend on the caller's memory
+    memset(config_ptr, 0, sizeof(*config_ptr));
+
     config_ptr->frame_rate = 30 << 16;
     config_ptr->frame_rate_numerator = 0;
     config_ptr->frame_rate_denominator = 0;
